@@ -604,15 +604,13 @@ ITEM_DEFS = (X.item_definition("tNumList", type_ref="number", is_collection=True
 
 
 def ids(model):
+    """identifiers as modelling tools write them: opaque (a digest of the name), so that their alphabetical order has nothing to do with the
+    order in which elements are created, listed or required"""
+    import hashlib
     out = {}
-    for i, x in enumerate(model["inputs"]):
-        out[x["name"]] = "_i%d" % i
-    for i, x in enumerate(model["decisions"]):
-        out[x["name"]] = "_d%d" % i
-    for i, x in enumerate(model["bkms"]):
-        out[x["name"]] = "_b%d" % i
-    for i, x in enumerate(model["services"]):
-        out[x["name"]] = "_s%d" % i
+    for kind, tag in (("inputs", "i"), ("decisions", "d"), ("bkms", "b"), ("services", "s")):
+        for i, x in enumerate(model[kind]):
+            out[x["name"]] = "_%s_%s%d" % (hashlib.sha1(x["name"].encode("utf-8")).hexdigest()[:6], tag, i)
     return out
 
 
